@@ -16,7 +16,12 @@ import (
 	"verif/harness/tlc"
 )
 
-const evidencePath = "/verif/evidence/C15.json"
+var evidencePath = func() string {
+	if p := os.Getenv("VERIF_CHAINOBS_EVIDENCE"); p != "" { // self-test of the merge on a copy
+		return p
+	}
+	return "/verif/evidence/C15.json"
+}()
 
 // VResult is the RESULT record printed by ChainObsTrace.
 type VResult struct {
